@@ -517,6 +517,12 @@ impl<T: RcObject> Rc<T> {
     /// read-modify-write operations.
     #[inline(always)]
     pub fn new_many<const N: usize>(obj: T) -> [Self; N] {
+        if N == 0 {
+            // No owner is handed out, so nobody could ever release the object: destruct it
+            // through the ordinary path instead of leaking it.
+            drop(Self::new(obj));
+            return [(); N].map(|_| Self::null());
+        }
         let ptr = RcInner::alloc(obj, N as _);
         [(); N].map(|_| Self {
             ptr: Raw::from(ptr),
@@ -532,6 +538,14 @@ impl<T: RcObject> Rc<T> {
     /// read-modify-write operations.
     #[inline(always)]
     pub fn new_many_iter(obj: T, count: usize) -> NewRcIter<T> {
+        if count == 0 {
+            // See `new_many`: an object without owners must still be destructed.
+            drop(Self::new(obj));
+            return NewRcIter {
+                remain: 0,
+                ptr: Raw::null(),
+            };
+        }
         let ptr = RcInner::alloc(obj, count as _);
         NewRcIter {
             remain: count,
